@@ -55,7 +55,18 @@ func resolveTypes(env *Environment, errorSink *validation.ErrorSink) *Environmen
 	VisitWithContext(env, &visitorContext{symbolTable: env.SymbolTable}, func(self VisitorWithContext[*visitorContext], node Node, context *visitorContext) {
 		switch t := node.(type) {
 		case *Namespace:
-			self.VisitChildren(node, &visitorContext{currentNamespace: t.Name, symbolTable: env.SymbolTable})
+			// Only the namespace's own types and those of the namespaces it imports (directly or indirectly) are visible
+			visibleNamespaces := map[string]bool{t.Name: true}
+			for _, reference := range t.GetAllChildReferences() {
+				visibleNamespaces[reference.Name] = true
+			}
+			visibleSymbols := make(SymbolTable)
+			for name, definition := range env.SymbolTable {
+				if visibleNamespaces[definition.GetDefinitionMeta().Namespace] {
+					visibleSymbols[name] = definition
+				}
+			}
+			self.VisitChildren(node, &visitorContext{currentNamespace: t.Name, symbolTable: visibleSymbols})
 			return
 		case TypeDefinition:
 			definitionMeta := t.GetDefinitionMeta()
